@@ -1,5 +1,6 @@
 import PacketVerif.Model.Icmp6Hunt
 import PacketVerif.Model.Icmp6Frame
+import PacketVerif.Model.Icmp6Na
 import PacketVerif.Drv.Ndp
 import PacketVerif.Drv.Accept
 namespace PV.Drv.Icmp6Hunt
@@ -20,7 +21,9 @@ open PV PV.Model.Ndp PV.Model.Icmp6Hunt PV.Drv.Accept
           Xc<k>:<mac>:<eff 0|1>       StopHunt called          Xr<k>
           Cc<k>                       Close called             Cr<k>
           Rc<k>:<ra>                  ProcessPacket(RA) called Rr<k>:<0|1>      … returned error / nil
-          N<mac>:<router ip>          forged neighbour advertisement written (logged when WriteTo returns)
+          N<mac>:<router ip>[:<frame>] forged neighbour advertisement written (logged when WriteTo returns); with the
+                                      frame bytes the acceptor also requires frame = `Model.Icmp6Na.loopNA` for our MAC
+                                      (`host=<mac>` token), that host, that router and the frame's IPv6 destination
         every event is suffixed `@<ms>` (time since the start of the scenario).
         hidden steps: check / wake of every loop, the atomic step of an open API call (enabled only
         while no loop holds the handler mutex across its batch – `State.holder`), the wake-up
@@ -30,7 +33,8 @@ open PV PV.Model.Ndp PV.Model.Icmp6Hunt PV.Drv.Accept
 -/
 
 def hdrStr (h : RaHeader) : String :=
-  s!"{h.curHopLimit}/{Drv.Ndp.b01 h.managed}/{Drv.Ndp.b01 h.other}/{h.preference}/{h.lifetime}/{h.reachable}/{h.retrans}"
+  -- P1: Router.Prefixes = Options.Prefixes; M0 / R-: Router.MTU and Router.RDNSS are not touched by ProcessPacket
+  s!"{h.curHopLimit}/{Drv.Ndp.b01 h.managed}/{Drv.Ndp.b01 h.other}/{h.preference}/{h.lifetime}/{h.reachable}/{h.retrans}/P1/M0/R-"
 
 def insertSorted (e : String × String) : List (String × String) → List (String × String)
   | [] => [e]
@@ -80,11 +84,12 @@ structure AState where
   tprev : Nat := 0
   tnext : Nat := 0
   waits : List (Nat × Nat × Bool) := []
+  hostMAC : Bytes := []
 
 inductive ObsK where
   | call (k : Nat) (op : Op)
   | ret (k : Nat) (res : String)
-  | na (mac ip : Bytes)
+  | na (mac ip : Bytes) (frame : Option Bytes)
 
 structure Obs where
   k : ObsK
@@ -172,7 +177,15 @@ def applyObs (a : AState) (o : Obs) : List AState :=
     | some (_, _, some o) =>
       if outStr (some o) = res ∨ res = "-" then [{ a with open_ := a.open_.filter (fun x => x.1 ≠ k) }] else []
     | _ => []
-  | .na mac ip =>
+  | .na mac ip frame =>
+    let bytesOK : Bool := match frame with
+      | none => true
+      | some f =>
+        -- the frame on the wire is the loop's `ICMP6SendNeighborAdvertisement` for this host and this router
+        match Model.Icmp6Na.loopNA (List.replicate 1522 0) a.hostMAC mac ip ((f.drop 38).take 16) with
+        | .ok g => g == f
+        | _ => false
+    if bytesOK = false then [] else
     (List.range a.s.nloops).filterMap (fun i =>
       if (a.s.loops i).mac = mac then
         match step a.s (.send i ip) with
@@ -188,7 +201,8 @@ def parseObsK (tok : String) : Option ObsK :=
   match cs with
   | 'N' :: r =>
     match (String.ofList r).splitOn ":" with
-    | [m, ip] => do let mm ← fromHex m; let i ← fromHex ip; some (.na mm i)
+    | [m, ip] => do let mm ← fromHex m; let i ← fromHex ip; some (.na mm i none)
+    | [m, ip, fr] => do let mm ← fromHex m; let i ← fromHex ip; let f ← fromHex fr; some (.na mm i (some f))
     | _ => none
   | c :: 'c' :: r =>
     match (String.ofList r).splitOn ":" with
@@ -218,7 +232,7 @@ def obsName (o : Obs) : String :=
   match o.k with
   | .call k op => s!"call {k} {opStr op}"
   | .ret k r => s!"return {k} {r}"
-  | .na m ip => s!"NA to {toHex m} for router {toHex ip} at {o.t} ms (no loop attacking this MAC can be writing: a loop stays at least {minCycleMs} ms in its select unless an RA or Close wakes it, passes its check only while the MAC is hunted and the handler open, and StopHunt / Close return only when no batch is in flight)"
+  | .na m ip _ => s!"NA to {toHex m} for router {toHex ip} at {o.t} ms (no loop attacking this MAC can be writing: a loop stays at least {minCycleMs} ms in its select unless an RA or Close wakes it, passes its check only while the MAC is hunted and the handler open, and StopHunt / Close return only when no batch is in flight)"
 
 def machine : Machine AState Obs :=
   { key := AState.key, hidden := hidden, apply := applyObs, name := obsName,
@@ -267,8 +281,11 @@ def handle (cmd : String) (args : List String) : Option String :=
       some s!"res={res} def={match s.defaultRouter with | some ip => toHex ip | none => "-"} routers={routersStr s}"
     | none => some "panic"
   | "nd.trace", toks => do
-    let obs ← (toks.filter (fun t => ¬ t.startsWith "scn=")).mapM parseObs
-    some (accept machine { s := {}, open_ := [] } obs)
+    let obs ← (toks.filter (fun t => ¬ t.startsWith "scn=" ∧ ¬ t.startsWith "host=")).mapM parseObs
+    let host := match toks.find? (fun t => t.startsWith "host=") with
+      | some t => (fromHex (t.drop 5).toString).getD []
+      | none => []
+    some (accept machine { s := {}, open_ := [], hostMAC := host } obs)
   | _, _ => none
 
 end PV.Drv.Icmp6Hunt
